@@ -272,6 +272,12 @@ CONTRACTS.append(Contract(
 from contracts import c04_policy  # noqa: E402
 
 CONTRACTS += c04_policy.CONTRACTS
+from contracts import c09_frames as _fr  # noqa: E402
+from contracts import c10 as _c10  # noqa: E402
+
+# a category's customised copy of a hasher must not alter the hasher other categories / contexts use (frames, shared with C09);
+# reconfiguring a context leaves no per-instance state of the previous configuration behind (shared with C10)
+CONTRACTS += _fr.CONTRACTS + [c for c in _c10.CONTRACTS if c.id.startswith("CryptContext.load[")]
 
 MUTANTS = [
     ("clip: max compared with >=", H, "        if mxd and rounds > mxd:\n            return mxd\n", "        if mxd and rounds >= mxd:\n            return mxd - 1\n", "refute"),
